@@ -547,7 +547,8 @@ def program_src(prog):
     ifaces = [p for p in prog["parts"] if p["id"] != "own"]
     own = [p for p in prog["parts"] if p["id"] == "own"][0]
     has = lambda k: any(m["kind"] == k for m in own["methods"])  # noqa: E731
-    generic = prog.get("family") == "generic"
+    generic = prog.get("family") == "generic" or bool(prog.get("generic"))
+    define_only = bool(prog.get("define_only"))      # the contract is only *defined*: no entry points, nothing instantiates its messages
     if generic:
         for p in prog["parts"]:
             p["_generic"] = True
@@ -586,7 +587,10 @@ def program_src(prog):
         for m in p["methods"]:
             o.append("    " + handler_src(prog, p, m, False).replace("\n    ", "\n        ").rstrip(" "))
         o.append("    }\n\n")
-    o.append("    #[sylvia::entry_points%s]\n    #[sylvia::contract]\n" % ("(generics<GenVal>)" if generic else ""))
+    if define_only:
+        o.append("    #[sylvia::contract]\n")
+    else:
+        o.append("    #[sylvia::entry_points%s]\n    #[sylvia::contract]\n" % ("(generics<GenVal>)" if generic else ""))
     a_err = ["    #[sv::error(ContractError)]\n"]
     a_msgs = ["    #[sv::messages(%s as %s)]\n" % (imod(p), p["id"].capitalize()) for p in ifaces]
     a_mat = ["    #[sv::msg_attr(%s, %s)]\n" % (a["kind"], a["text"]) for a in own.get("mattrs", [])]        # forwarded to the message type of a kind
@@ -604,6 +608,9 @@ def program_src(prog):
                                                      serde_names(m, "        ")))
         o.append("    " + handler_src(prog, own, m, False).replace("\n    ", "\n        ").rstrip(" "))
     o.append("    }\n\n")
+    if define_only:
+        o.append("}\n")
+        return "".join(o)
 
     if generic:
         o.append(generic_aliases(prog))
@@ -723,7 +730,7 @@ def generate(progs, out_dir, harness_dir, repo, shards, prefix, write_if_changed
             start = sum(x.count("\n") for x in src) + 1
             src.append(rename_crate(program_src(p), krate))
             spans[(name, p["id"])] = (start, sum(x.count("\n") for x in src))
-        src.append("\nfn main() {\n    verif_rrt::main_with(&[%s]);\n}\n" % ", ".join("%s::vt()" % p["id"].lower() for p in g))
+        src.append("\nfn main() {\n    verif_rrt::main_with(&[%s]);\n}\n" % ", ".join("%s::vt()" % p["id"].lower() for p in g if not p.get("define_only")))
         write_if_changed(os.path.join(d, "src", "main.rs"), "".join(src))
         bins.append((name, [p["id"] for p in g]))
     ws = "[workspace]\nmembers = [%s]\nresolver = \"2\"\n\n[profile.dev]\ndebug = false\nincremental = false\n" % ", ".join('"%s"' % m for m in members)
